@@ -1323,7 +1323,7 @@ func sideVal(in *Interp, e ast.Expr, limV, lenV types.Object) *int64 {
 }
 
 func c03NoPkt(c *Ctx) {
-	r := c.Rule("C03/NOPKT", "TRACE", "Decoder.Read and BaseConn.Receive: an error return carries a nil packet; a packet is returned only after Decode→ok (resp. stream.Read→ok and resetTimeout→ok)", 2)
+	r := c.Rule("C03/NOPKT", "TRACE", "Decoder.Read and BaseConn.Receive: an error return carries a nil packet; a packet is returned only after Decode→ok (resp. stream.Read→ok and resetTimeout→ok); Decode only sees a completely read buffer", 3)
 	for _, name := range []string{"packet.(*Decoder).Read", "transport.(*BaseConn).Receive"} {
 		fi := c.mustFunc(r, name)
 		if fi == nil {
@@ -1362,6 +1362,40 @@ func c03NoPkt(c *Ctx) {
 			}
 		}
 		r.Check(name+":error⇒nil packet", bad == nil && nPkt > 0, fi.Decl.Pos(), len(in.Traces), why, shortWitness(c.witness(bad))...)
+		if name != "packet.(*Decoder).Read" {
+			continue
+		}
+		// a packet is only decoded from a buffer that was filled completely: the slice handed to Decode is the
+		// slice handed to io.ReadFull (or io.ReadAtLeast with min == len) whose error was tested — a read that can
+		// return fewer bytes without an error (Read, ReadFrom, Copy) would decode stale bytes after a truncated stream
+		h := &Interp{P: c.P, Info: fi.Pkg.TypesInfo}
+		var w *Trace
+		nDec := 0
+		for _, t := range in.Traces {
+			for i, e := range t.Ev {
+				f, ok := e.Callee.(*types.Func)
+				if e.Kind != EvCall || !ok || f.Name() != "Decode" || len(e.Call.Args) != 1 {
+					continue
+				}
+				nDec++
+				bufObj := h.objOf(e.Call.Args[0])
+				full := false
+				for _, p := range t.Ev[:i] {
+					pf, ok := p.Callee.(*types.Func)
+					if p.Kind != EvCall || !ok || len(p.Call.Args) < 2 {
+						continue
+					}
+					if (pf.FullName() == "io.ReadFull" || pf.FullName() == "io.ReadAtLeast") && h.objOf(p.Call.Args[1]) == bufObj && bufObj != nil && t.errOutcome(p) == -1 {
+						full = true
+					}
+				}
+				if !full {
+					w = t
+				}
+			}
+		}
+		r.Check(name+":Decode only after the whole packet was read", w == nil && nDec > 0, fi.Decl.Pos(), len(in.Traces),
+			"the buffer handed to Decode is not the buffer of a successful io.ReadFull: a stream that ends inside a packet can yield a packet (decoded from stale bytes)", shortWitness(c.witness(w))...)
 	}
 }
 
